@@ -78,11 +78,11 @@ def build(ctx):
         safe = "".join(c if c.isalnum() else ("L" if c == "[" else "R") for c in tags) or "none"
         text, cap, nargs = harness_text(tags)
         h = ctx.write("gen/h_%s.c" % safe, text)
-        alens = [None] if len(tags) <= 1 else ([1 + (sum(map(ord, tags)) % 4)] if not thorough else [1, 2, 3, 4])
+        alens = [None] if len(tags) <= 1 else [1 + (sum(map(ord, tags)) % 4)]
         for part, alen in [(p_, a_) for p_ in (1, 2, 3) for a_ in alens]:
             if part == 3 and ("[" in tags or "]" in tags):
                 continue
-            if part in (2, 3) and not thorough and len(tags) > 1 and (sum(map(ord, tags)) % 3):
+            if part in (2, 3) and len(tags) > 1 and (sum(map(ord, tags)) % 3):
                 continue
             defs = ["-DPART=%d" % part] + (["-DALEN=%d" % alen] if alen else []) + (["-DNO_NAN"] if part == 2 else [])
             avl = part == 3
